@@ -125,6 +125,9 @@ def run(check, prog):
     # inside the lens wrapper the solver is asked for azimuths in [0, 2 pi): the
     # compiled code terminates the process on an angle out of range
     c05.phi_quadrature(check, prog)
+    # a theory written for one polarisation refuses every other one (else the
+    # sphere limit fails for the polarisations it lets through)
+    c05.pin_exact(check, prog)
 
 
 def stops(check, prog, root):
